@@ -182,11 +182,29 @@ Definition fold_expressions (initial : located expr) (remainder : list (located 
 Definition operator (table : list (text * binop)) : parser binop :=
   alts (map (fun e => map_p (fun _ => snd e) (tag (fst e))) table).
 
-(* arg_list: many0(tuple((ws(item), ws(',')))) then ws(item) *)
-Definition arg_list {T} (item : parser T) : parser (arg_items T) :=
-  map_p (fun x => map (fun y => (fst y, Some (snd y))) (fst x) ++ [(snd x, None)])
-    (pair_p (many0 (pair_p (wr (slot W_arg_list 0) item) (wr (slot W_arg_list 1) (char_p 44))))
-            (wr (slot W_arg_list 2) item)).
+(* arg_list: ws(item), then as long as ws(',') matches another ws(item) MUST follow (else the whole list fails);
+   every item is parsed once *)
+Fixpoint arg_list_loop {T} (fuel : nat) (item : parser T) (acc : arg_items T) (cur : located T) : parser (arg_items T) := fun st i =>
+  match fuel with
+  | O => (st, Abort OutOfFuel)
+  | S f =>
+      match wr (slot W_arg_list 1) (char_p 44) st i with
+      | (st1, Ok comma r) =>
+          match wr (slot W_arg_list 2) item st1 r with
+          | (st2, Ok next r2) => arg_list_loop f item (acc ++ [(cur, Some comma)]) next st2 r2
+          | (st2, Err) => (st2, Err)
+          | (st2, Abort x) => (st2, Abort x)
+          end
+      | (st1, Err) => (st1, Ok (acc ++ [(cur, None)]) i)
+      | (st1, Abort x) => (st1, Abort x)
+      end
+  end.
+Definition arg_list {T} (item : parser T) : parser (arg_items T) := fun st i =>
+  match wr (slot W_arg_list 0) item st i with
+  | (st1, Ok first r) => arg_list_loop (S (length (rem r))) item [] first st1 r
+  | (st1, Err) => (st1, Err)
+  | (st1, Abort x) => (st1, Abort x)
+  end.
 Definition identifier_arg_list : parser (arg_items text) := arg_list identifier_name.
 
 Definition digits01 : text := [48; 49].
@@ -205,6 +223,7 @@ Definition number : parser (located efactor) :=
                pair_p (wr (slot W_number 7) (value_p NumberType_Dec)) (wr (slot W_number 8) (tag_no_case (nword 0)));
                pair_p (wr (slot W_number 9) (value_p NumberType_Dec)) (wr (slot W_number 10) (tag_no_case (nword 1))) ])).
 
+Definition flag_chars : text := [33; 45].   (* one_of("!-") *)
 Definition modifier_p : parser AddressModifier :=
   alts (map (fun e => map_p (fun _ => snd e) (char_p (fst e))) modifier_chars).
 Definition identifier_value : parser (located efactor) :=
@@ -226,14 +245,14 @@ Section WithExpression.
   Definition expression_parens : parser (located efactor) :=
     wr (slot W_expression_parens 0)
       (map_p (fun x => FParens (fst x) (fst (snd x)) (snd (snd x)))
-         (pair_p (wr (slot W_expression_parens 1) (char_p 40)) (pair_p p_expr (wr (slot W_expression_parens 2) (char_p 41))))).
+         (pair_p (wr (slot W_expression_parens 1) (char_p 40)) (pair_p (nested max_nesting_depth p_expr) (wr (slot W_expression_parens 2) (char_p 41))))).
 
   (* the tuple of fn_call_impl, without the outer located(..) *)
   Definition fn_call_parts (multiline : bool)
     : parser (located text * (located N * (option (arg_items expr) * located N))) :=
     pair_p (if multiline then wr (slot W_fn_call_impl 1) identifier_name else wr (slot W_fn_call_impl 2) identifier_name)
       (pair_p (wr (slot W_fn_call_impl 3) (char_p 40))
-         (pair_p (opt expression_arg_list) (wr (slot W_fn_call_impl 4) (char_p 41)))).
+         (pair_p (opt (nested max_nesting_depth expression_arg_list)) (wr (slot W_fn_call_impl 4) (char_p 41)))).
   Definition unwrap_or_default {T} (o : option (list T)) : list T := match o with Some l => l | None => [] end.
   Definition fn_call_impl (multiline : bool) : parser (located efactor) :=
     wr (slot W_fn_call_impl 0)
@@ -255,9 +274,11 @@ Section WithExpression.
   Definition expression_factor : parser (located expr) :=
     wr (slot W_expression_factor 0)
       (alt (map_p (fun f => EFactor f None None) expression_factor_inner)
-           (map_p (fun x => EFactor (snd (snd x)) (fst x) (fst (snd x)))
-              (pair_p (opt (wr (slot W_expression_factor 1) (char_p 33)))
-                 (pair_p (opt (wr (slot W_expression_factor 2) (char_p 45))) expression_factor_inner)))).
+           (map_p (fun x => EFactor (snd (snd (snd x))) (fst (snd x)) (fst (snd (snd x))))
+              (* preceded(peek(one_of("!-")), tuple(..)) *)
+              (pair_p (peek (one_of flag_chars))
+                 (pair_p (opt (wr (slot W_expression_factor 1) (char_p 33)))
+                    (pair_p (opt (wr (slot W_expression_factor 2) (char_p 45))) expression_factor_inner))))).
 
   Definition expression_term : parser (located expr) :=
     map_p (fun x => fold_expressions (fst x) (snd x))
@@ -354,7 +375,7 @@ Section WithStatement.
   Definition block : parser block_t :=
     map_p (fun x => Block (fst x) (fst (snd x)) (snd (snd x)))
       (pair_p (wr (slot W_block 0) (char_p 123))
-         (pair_p (many0 (alt p_stmt error_in_block)) (expect (wr (slot W_block 1) (char_p 125)) MClosing))).
+         (pair_p (nested max_nesting_depth (many0 (alt p_stmt error_in_block))) (expect (wr (slot W_block 1) (char_p 125)) MClosing))).
 
   Definition braces : parser token := with_scope block TBraces.
 
